@@ -460,6 +460,7 @@ class World:
         self.point_hook = None
         self.real_setlocale = _clocale.setlocale
         self.tracing_lines = False
+        self.frozen = False
 
     # --- tasks, events, probes ---------------------------------------------------------
     def current_task(self):
@@ -473,7 +474,8 @@ class World:
         return 'T0'
 
     def event(self, ev):
-        self.events.append(ev)
+        if not self.frozen:
+            self.events.append(ev)
 
     def probe(self, name, n=1):
         self.probes[name] = self.probes.get(name, 0) + n
